@@ -1824,6 +1824,18 @@ func (x *Exec) step(p *Path, in ssa.Instruction) {
 			set(in, v)
 			return
 		}
+		if _, named := types.Unalias(et).(*types.Named); named && in.Heap {
+			if _, isSlice := et.Underlying().(*types.Slice); isSlice {
+				// &T{} of a named slice type that escapes (collections.pqImpl): a heap box, see boxField
+				r := e.alloc(p, in.Name())
+				p.nonnil[r] = true
+				e.storeField(p, r, typeKey(et), boxField, et, e.zeroVal(et))
+				v := scalar(in.Type(), r)
+				v.Label = in.Comment
+				set(in, v)
+				return
+			}
+		}
 		cell := x.cellName(fr, in)
 		p.cells[cell] = e.zeroVal(et)
 		set(in, Val{K: KAddr, T: in.Type(), A: &Addr{Kind: ALocal, Cell: cell, ET: et, Label: in.Comment}})
